@@ -59,6 +59,15 @@ def predMask (u : Nat) : Nat :=
 def showRanges (rs : List (Nat × Nat)) : String :=
   if rs.isEmpty then "-" else ",".intercalate (rs.map fun (a, b) => s!"{a}-{b}")
 
+/-- names of `verif::shaper::shaper_name`; the index is `Shaper.code` -/
+def shaperNames : List String :=
+  ["default", "dumber", "hangul", "arabic", "hebrew", "indic", "khmer", "myanmar", "zawgyi", "thai", "use"]
+
+def shaperOfName (n : String) : Option Shaper := (shaperNames.idxOf? n).map Shaper.ofCode
+
+def dirCode : String → Option Nat
+  | "l" => some 0 | "r" => some 1 | "t" => some 2 | "b" => some 3 | _ => none
+
 def cmds : List String := ["hangul"]
 
 def handle (ts : List String) : Option String :=
@@ -80,6 +89,15 @@ def handle (ts : List String) : Option String :=
       match preprocess c text with
       | none => pure "panic"
       | some r => pure (" ".intercalate ("ok" :: r.map fun g => s!"{g.cp}:{g.cl}:{g.tag}"))
+  | ["plan", env, dir, _script, cat] => do
+      -- env: letters of the tables the font has besides the basic ones (S GSUB, M morx, K kern, P GPOS, D GDEF)
+      let letters := if env == "-" then [] else env.toList
+      if letters.any (fun c => !("SMKPD".toList.contains c)) then none
+      let d ← dirCode dir
+      let cat ← shaperOfName cat
+      let e : PlanEnv := { hasMorx := letters.contains 'M', hasGsub := letters.contains 'S', horizontal := dirHorizontal d }
+      let name ← shaperNames[(planShaper cat e).code]?
+      pure s!"{name} {b2s (applyMorx e)}"
   | _ => none
 
 end RbModel.Drv.Hangul
